@@ -430,6 +430,11 @@ func (c *V2) Do(op Op) (out Outcome) {
 			in.RequestItems[e.Table] = append(in.RequestItems[e.Table], wr)
 		}
 		res, err := c.C.BatchWriteItem(ctx, in)
+		if op.ResendUnprocessed && err == nil && res != nil && len(res.UnprocessedItems) > 0 {
+			v2client.EmulateFailure(c.C, v2client.FailureConditionNone)
+			v2client.DeactiveForceFailure(c.C)
+			res, err = c.C.BatchWriteItem(ctx, &v2ddb.BatchWriteItemInput{RequestItems: res.UnprocessedItems})
+		}
 		o := fin(err)
 		if res != nil {
 			for t, reqs := range res.UnprocessedItems {
